@@ -16,6 +16,7 @@ import RedoModel.WaitsWire
 import RedoModel.PathsSemWire
 import RedoModel.LogFollowWire
 import RedoModel.ParWire
+import RedoModel.ParFWire
 import RedoModel.CyclesWire
 open RedoModel RedoModel.Wire
 
@@ -141,6 +142,8 @@ def respond (line : String) : String :=
   | ["cycles", v, ops] => CyclesWire.respond v ops
   | ["par-replay", graph, pre, evs] => ParWire.respond graph pre evs
   | ["par-serial", graph, pre, tops] => ParWire.respondSerial graph pre tops
+  | ["parf-replay", graph, kg, tops, evs] => ParFWire.respond graph kg tops evs
+  | ["parf-serial", graph, kg, tops] => ParFWire.respondSerial graph kg tops
   | ["waits-replay", reach, evs] => WaitsWire.respond reach evs
   | ["stamp-override", a, b] =>
     match dec a, dec b with
